@@ -319,10 +319,11 @@ theorem doUseToken_txok (c : Ctx) (now : Int) : TxOk now c (doUseToken c now) :=
 theorem doListenToken_txok (c : Ctx) (now : Int) : TxOk now c (doListenToken c now) := by
   obtain ⟨hnone, hsome⟩ := handleLostToken_txok c now
   unfold doListenToken
-  split
-  · rcases hl : handleLostToken c now with ⟨c1, _ | r⟩
-    · obtain ⟨hk, hst1, hrx⟩ := hnone c1 hl
-      simp only
+  -- destructure the pair BEFORE any `split` (otherwise the kernel needs ≈ 60 s for the splitter proof)
+  rcases hl : handleLostToken c now with ⟨c1, _ | r⟩
+  · obtain ⟨hk, hst1, hrx⟩ := hnone c1 hl
+    split
+    · simp only
       refine TxOk.of_keeps hk ?_
       split
       · -- a status request is pending: answer after the pause
@@ -336,8 +337,10 @@ theorem doListenToken_txok (c : Ctx) (now : Int) : TxOk now c (doListenToken c n
             intro c' h
             rw [fold_noTx _ (fun c t l => listenTelegram_noTx now c t l) _ _ c' h])
       · exact txOk_panic _ _ _
+    · exact txOk_panic _ _ _
+  · split
     · exact hsome c1 r hl
-  · exact txOk_panic _ _ _
+    · exact txOk_panic _ _ _
 
 theorem idleTelegram_noTx (now : Int) (c : Ctx) (t : Telegram) (l : Bool) :
     NoTx c (handleTelegram (upd c fun s => markRx s now) now t l) := by
@@ -347,10 +350,10 @@ theorem idleTelegram_noTx (now : Int) (c : Ctx) (t : Telegram) (l : Bool) :
 theorem doActiveIdle_txok (c : Ctx) (now : Int) : TxOk now c (doActiveIdle c now) := by
   obtain ⟨hnone, hsome⟩ := handleLostToken_txok c now
   unfold doActiveIdle
-  split
-  · rcases hl : handleLostToken c now with ⟨c1, _ | r⟩
-    · obtain ⟨hk, hst1, hrx⟩ := hnone c1 hl
-      simp only
+  rcases hl : handleLostToken c now with ⟨c1, _ | r⟩
+  · obtain ⟨hk, hst1, hrx⟩ := hnone c1 hl
+    split
+    · simp only
       refine TxOk.of_keeps hk ?_
       split
       · by_cases hw : (waitSyncPause c1.s now).2 = true
@@ -363,8 +366,10 @@ theorem doActiveIdle_txok (c : Ctx) (now : Int) : TxOk now c (doActiveIdle c now
             intro c' h
             rw [fold_noTx _ (fun c t l => idleTelegram_noTx now c t l) _ _ c' h])
       · exact txOk_panic _ _ _
+    · exact txOk_panic _ _ _
+  · split
     · exact hsome c1 r hl
-  · exact txOk_panic _ _ _
+    · exact txOk_panic _ _ _
 
 theorem doAwaitStatusResponse_txok (c : Ctx) (now : Int) : TxOk now c (doAwaitStatusResponse c now) := by
   unfold doAwaitStatusResponse
